@@ -651,9 +651,11 @@ func (c *compiler) compilePattern(vs [][2]int, p *Pattern) ([][2]int, error) {
 					}
 				}
 			} else if kv.KeyQuery != nil {
+				f := c.newScopeDepth()
 				if err := c.compileQuery(kv.KeyQuery); err != nil {
 					return nil, err
 				}
+				f()
 			}
 			if key != "" {
 				c.append(&code{op: opindex, v: key})
